@@ -10,12 +10,18 @@ Correspondence (gating, evaluated inside Coq with exact rationals):
   * halton() called directly on (sample_size, bases, n_start) incl. n_start = 0, the top of the range and invalid
     arguments;  get_n_primes() call histories (exact);  compute_phi(d) certificate;  RSequenceSampler objects.
 Direct oracle: the property statement re-computed in Python with Fractions, written without reference to the model.
+Round 4 (generator sweep, design.d/C13.md): numpy-typed sizes / seeds / bases, a second object interleaved, aliasing of
+returned arrays, same-seed reseeding, objects seeded at the ends of the start range (cursor across 2^16, up to 2^16+2^12),
+rejected requests for both samplers (total-step model Model/SeqRej.v: check_case_t / check_rseq_t), returned rows against
+raw rows, shifted search spaces, reassigned max_deduplication_passes, threads.
 """
 from __future__ import annotations
 
 import contextlib
 import io
 import json
+import threading
+import time
 from collections import Counter
 from fractions import Fraction
 
@@ -23,12 +29,14 @@ import numpy as np
 
 from common import clist, cnat, cq, cz
 
-IMPORTS = "From Coq Require Import List ZArith QArith.\nFrom BlackIt Require Import Model.Halton Model.RSeq."
+IMPORTS = "From Coq Require Import List ZArith QArith.\nFrom BlackIt Require Import Model.Halton Model.RSeq Model.SeqRej."
 T_HRUN = "Z * list (Z * Z) * list (Z * list (list Q)) * list (list Q)"
 T_HDIRECT = "Z * list Z * Z * option (list (list Q))"
 T_PRIMES = "list (Z * option (list Z))"
 T_RRUN = "nat * Q * Z * Z * Q * list nat * list (Z * list (list Q)) * list (list Q)"
 T_PHI = "nat * Q"
+T_HRUN_T = "Z * list (Z * Z) * list (Z * option (list (list Q)))"
+T_RRUN_T = "nat * Q * Z * Q * list (nat * Z) * list (Z * option (list (list Q)))"
 
 TOP = 2**16 + 2**12
 TOL40 = Fraction(1, 2**40)
@@ -72,122 +80,263 @@ def same_bits(a, b):
     return a.shape == b.shape and a.tobytes() == b.tobytes()
 
 
-def make_space(dims, jexp, gridn=64):
+NPT = {"int": int, "int64": np.int64, "int32": np.int32, "intp": np.intp, "uint32": np.uint32, "uint64": np.uint64}
+
+
+def typed(v, t):
+    """The integer `v` in the representation `t` (round 4: numpy scalars where the code is usually given Python ints)."""
+    return v if v is None else NPT[t or "int"](v)
+
+
+def make_space(dims, jexp, gridn=64, shift=0):
+    """Bounds [m*w, (m+1)*w] with w a power of two and m a small integer: un-mapping (x - m*w) / w loses < 2^-50."""
     from black_it.search_space import SearchSpace
 
     widths = [2.0 ** jexp[i % len(jexp)] for i in range(dims)]
-    ss = SearchSpace([[0.0] * dims, widths], [w / gridn for w in widths], verbose=False)
-    return ss, np.array(widths)
+    lows = [shift * w for w in widths]
+    ss = SearchSpace([lows, [lo + w for lo, w in zip(lows, widths)]], [w / gridn for w in widths], verbose=False)
+    return ss, np.array(widths), np.array(lows)
 
 
 # ------------------------------------------------------------------------------------------------ implementation drivers
-def drive_sampler(module, cls_name, raw_name, case):
-    """Run the ops of `case` on one sampler object; returns the observation dict."""
-    cls = getattr(module, cls_name)
-    captured = []
-    holder = {}
-    orig = module.digitize_data
+class _Obj:
+    """One sampler object driven through the ops of a case, one op per step() (so that two objects can be interleaved)."""
 
-    def wrapper(data, grid):
-        captured.append((np.array(data, dtype=np.float64, copy=True), int(holder["s"]._sequence_index)))
-        return orig(data, grid)
+    def __init__(self, kind, case, ctx):
+        import black_it.samplers.halton as H
+        import black_it.samplers.r_sequence as R
 
-    obs = {"error": None, "segments": []}
-    module.digitize_data = wrapper
-    try:
-        smp = cls(batch_size=1, random_state=case["seed"])
-        holder["s"] = smp
-        for seg in case["segments"]:
-            if seg.get("reseed") is not None:
-                smp.random_state = seg["reseed"]
-            so = {"s0": int(smp._sequence_index), "s0_type": type(smp._sequence_index).__name__, "calls": []}
-            if raw_name == "_r_sequence":
-                so["offset"] = float(smp._sequence_start)
-            for op in seg["ops"]:
-                k, dims, via = op["k"], op["dims"], op["via"]
-                before = int(smp._sequence_index)
-                if via == "raw_bad":
-                    # a request the generator rejects (size <= 0), between two good ones: the cursor must not move
-                    rec = {"k": 0, "dims": dims, "before": before, "rows": np.zeros((0, dims)), "req": None, "rejected": True}
-                    try:
-                        getattr(smp, raw_name)(op["bad_k"], dims)
-                        rec["accepted"] = True
-                    except Exception as e:  # noqa: BLE001
-                        rec["raised"] = type(e).__name__
-                    rec["after"] = int(smp._sequence_index)
-                    so["calls"].append(rec)
-                    continue
-                if via == "raw":
-                    rows = getattr(smp, raw_name)(k, dims)
-                    so["calls"].append({"k": k, "dims": dims, "before": before, "after": int(smp._sequence_index),
-                                        "rows": np.array(rows, dtype=np.float64), "req": k})
-                    continue
-                ss, widths = make_space(dims, op["jexp"], op.get("gridn", 64))
-                captured.clear()
-                with contextlib.redirect_stdout(io.StringIO()):
-                    if via == "sample_batch":
-                        ret = smp.sample_batch(k, ss, np.zeros((0, dims)), np.zeros(0))
-                    else:
-                        smp.batch_size = k
-                        ret = smp.sample(ss, np.zeros((0, dims)), np.zeros(0))
-                for ci, (data, after) in enumerate(captured):
-                    so["calls"].append({"k": k if ci == 0 else int(data.shape[0]), "dims": dims, "before": before,
-                                        "after": after, "rows": data / widths, "req": k if ci == 0 else None,
-                                        "ret_shape": list(ret.shape)})
-                    before = after
-                if not captured:
-                    so["calls"].append({"k": k, "dims": dims, "before": before, "after": int(smp._sequence_index),
-                                        "rows": np.zeros((0, dims)), "req": k, "nocapture": True})
-            obs["segments"].append(so)
-        # twin objects: one raw call per segment of constant dimension
-        twin = cls(batch_size=1, random_state=case["seed"])
-        for seg, so in zip(case["segments"], obs["segments"]):
-            if seg.get("reseed") is not None:
-                twin.random_state = seg["reseed"]
-            dset = {c["dims"] for c in so["calls"]}
-            total = sum(int(c["rows"].shape[0]) for c in so["calls"])
-            so["twin_s0"] = int(twin._sequence_index)
-            if raw_name == "_r_sequence":
-                so["twin_offset"] = float(twin._sequence_start)
-            if len(dset) == 1 and total > 0:
-                so["twin"] = np.array(getattr(twin, raw_name)(total, dset.pop()), dtype=np.float64)
+        self.kind, self.case, self.ctx = kind, case, ctx
+        self.cls, self.raw_name = (H.HaltonSampler, "_halton") if kind == "hrun" else (R.RSequenceSampler, "_r_sequence")
+        self.obs = {"error": None, "segments": []}
+        self.todo = [(si, oi) for si, seg in enumerate(case["segments"]) for oi in range(len(seg["ops"]))]
+        self.pos = 0
+        self.smp = None
+        self.so = None
+        self.live = []
+
+    def _new(self, seed):
+        return self.cls(batch_size=1, random_state=typed(seed, self.case.get("seed_type")))
+
+    def _open_segment(self, si):
+        seg = self.case["segments"][si]
+        smp = self.smp
+        if seg.get("reseed") is not None or seg.get("reseed_same"):
+            smp.random_state = self._reseed_value(seg)
+        so = {"s0": int(smp._sequence_index), "s0_type": type(smp._sequence_index).__name__, "calls": []}
+        if self.raw_name == "_r_sequence":
+            so["offset"] = float(smp._sequence_start)
+        if si > 0:
+            # an object with ANOTHER past given the same seed through the setter: the start must not depend on the past
+            ref = self.cls(batch_size=3, random_state=(int(self.case["seed"] or 0) ^ 0x3C3C) + 1 + si)
+            getattr(ref, self.raw_name)(2, 2)
+            ref.random_state = self._reseed_value(seg)
+            so["ref_s0"] = int(ref._sequence_index)
+            if self.raw_name == "_r_sequence":
+                so["ref_offset"] = float(ref._sequence_start)
+        self.so = so
+        self.obs["segments"].append(so)
+
+    def _reseed_value(self, seg):
+        if seg.get("reseed_same"):
+            return typed(self.case["seed"], self.case.get("seed_type"))
+        return typed(seg["reseed"], seg.get("reseed_type"))
+
+    def done(self):
+        return self.pos >= len(self.todo) or self.obs["error"] is not None
+
+    def step(self):
+        try:
+            self._step()
+        except Exception as e:  # noqa: BLE001
+            self.obs["error"] = f"{type(e).__name__}: {e}"
+
+    def _step(self):
+        if self.smp is None:
+            self.smp = self._new(self.case["seed"])
+        si, oi = self.todo[self.pos]
+        self.pos += 1
+        if oi == 0:
+            self._open_segment(si)
+        smp, so, raw_name = self.smp, self.so, self.raw_name
+        op = self.case["segments"][si]["ops"][oi]
+        k, dims, via = op["k"], op["dims"], op["via"]
+        kt = op.get("ktype")
+        before = int(smp._sequence_index)
+        if via == "raw_bad":
+            # a request the generator rejects (size <= 0 / dims <= 0), between two good ones: the cursor must not move
+            rec = {"k": 0, "dims": max(dims, 0), "before": before, "rows": np.zeros((0, max(dims, 0))), "req": None, "rejected": True,
+                   "req_k": op.get("bad_k", 1), "req_dims": op.get("bad_dims", dims)}
+            try:
+                out = getattr(smp, raw_name)(typed(op.get("bad_k", 1), kt), typed(op.get("bad_dims", dims), kt))
+                rec["accepted"] = True
+                rec["ret_rows"] = int(np.asarray(out).shape[0])
+            except Exception as e:  # noqa: BLE001
+                rec["raised"] = type(e).__name__
+            rec["after"] = int(smp._sequence_index)
+            so["calls"].append(rec)
+            return
+        if via == "raw":
+            rows = getattr(smp, raw_name)(typed(k, kt), typed(dims, kt))
+            rec = {"k": k, "dims": dims, "before": before, "after": int(smp._sequence_index),
+                   "rows": np.array(rows, dtype=np.float64), "req": k}
+            self.live.append((rec, rows))
+            so["calls"].append(rec)
+            return
+        shift = op.get("shift", 0)
+        gridn = op.get("gridn", 64)
+        ss, widths, lows = make_space(dims, op["jexp"], gridn, shift)
+        if shift:
+            so["inexact"] = True
+        existing = np.zeros((0, dims))
+        if op.get("existing") == "full":   # every grid point is already taken: every de-duplication pass redraws
+            import itertools
+
+            existing = np.array(list(itertools.product(*ss.param_grid)), dtype=np.float64)
+        captured = self.ctx["captured"]
+        captured.clear()
+        self.ctx["smp"] = smp
+        with contextlib.redirect_stdout(io.StringIO()):
+            if via == "sample_batch":
+                ret = smp.sample_batch(typed(k, kt), ss, existing, np.zeros(existing.shape[0]))
             else:
-                so["twin"] = None
-                if total > 0:  # keep the twin's cursor aligned for later segments
-                    for c in so["calls"]:
-                        if c["rows"].shape[0] > 0:
-                            getattr(twin, raw_name)(int(c["rows"].shape[0]), c["dims"])
-    except Exception as e:  # noqa: BLE001
-        obs["error"] = f"{type(e).__name__}: {e}"
+                smp.batch_size = typed(k, kt)
+                if op.get("mdp") is not None:
+                    smp.max_deduplication_passes = op["mdp"]
+                ret = smp.sample(ss, existing, np.zeros(existing.shape[0]))
+        for ci, (data, after) in enumerate(captured):
+            rec = {"k": k if ci == 0 else int(data.shape[0]), "dims": dims, "before": before,
+                   "after": after, "rows": (data - lows) / widths, "req": k if ci == 0 else None,
+                   "ret_shape": list(np.shape(ret))}
+            if via == "sample_batch" and ci == 0 and len(captured) == 1:
+                rec["ret"] = (np.array(ret, dtype=np.float64) - lows) / widths
+                rec["gridn"] = gridn
+            so["calls"].append(rec)
+            before = after
+        if via == "sample":
+            so.setdefault("sample_passes", []).append({"mdp": int(smp.max_deduplication_passes), "calls": len(captured)})
+        if not captured:
+            so["calls"].append({"k": k, "dims": dims, "before": before, "after": int(smp._sequence_index),
+                                "rows": np.zeros((0, dims)), "req": k, "nocapture": True})
+
+    def finish(self):
+        """Returned arrays must not have been changed by later calls; twin objects: one raw call per segment of constant
+        dimension."""
+        if self.obs["error"]:
+            return
+        try:
+            for rec, arr in self.live:
+                if not same_bits(rec["rows"], arr):
+                    rec["changed_later"] = True
+            twin = self._new(self.case["seed"])
+            for seg, so in zip(self.case["segments"], self.obs["segments"]):
+                if seg.get("reseed") is not None or seg.get("reseed_same"):
+                    twin.random_state = self._reseed_value(seg)
+                dset = {c["dims"] for c in so["calls"] if not c.get("rejected")}
+                total = sum(int(c["rows"].shape[0]) for c in so["calls"])
+                so["twin_s0"] = int(twin._sequence_index)
+                if self.raw_name == "_r_sequence":
+                    so["twin_offset"] = float(twin._sequence_start)
+                if len(dset) == 1 and total > 0:
+                    so["twin"] = np.array(getattr(twin, self.raw_name)(total, dset.pop()), dtype=np.float64)
+                else:
+                    so["twin"] = None
+                    if total > 0:  # keep the twin's cursor aligned for later segments
+                        for c in so["calls"]:
+                            if c["rows"].shape[0] > 0:
+                                getattr(twin, self.raw_name)(int(c["rows"].shape[0]), c["dims"])
+        except Exception as e:  # noqa: BLE001
+            self.obs["error"] = f"{type(e).__name__}: {e}"
+
+
+def drive_case(case):
+    """Run the ops of `case` on one sampler object - and, when the case has a `partner`, the partner's ops on a second
+    object (of the same or of the other class), strictly alternating with the first one's.  Returns the observation dict
+    (the partner's under "partner")."""
+    import black_it.samplers.halton as H
+    import black_it.samplers.r_sequence as R
+
+    ctx = {"captured": [], "smp": None}
+    origs = {m: m.digitize_data for m in (H, R)}
+
+    def wrapper_for(orig):
+        def wrapper(data, grid):
+            ctx["captured"].append((np.array(data, dtype=np.float64, copy=True), int(ctx["smp"]._sequence_index)))
+            return orig(data, grid)
+        return wrapper
+
+    for m, o in origs.items():
+        m.digitize_data = wrapper_for(o)
+    try:
+        objs = [_Obj(case["kind"], case, ctx)]
+        if case.get("partner"):
+            objs.append(_Obj(case["partner"]["kind"], case["partner"], ctx))
+        while not all(o.done() for o in objs):
+            for o in objs:
+                if not o.done():
+                    o.step()
+        for o in objs:
+            o.finish()
     finally:
-        module.digitize_data = orig
+        for m, o in origs.items():
+            m.digitize_data = o
+    obs = objs[0].obs
+    if len(objs) > 1:
+        obs["partner"] = objs[1].obs
     return obs
 
 
-def impl_hrun(case):
-    import black_it.samplers.halton as H
-
-    return drive_sampler(H, "HaltonSampler", "_halton", case)
-
-
-def impl_rrun(case):
+def add_phi(case, obs):
     import black_it.samplers.r_sequence as R
 
-    obs = drive_sampler(R, "RSequenceSampler", "_r_sequence", case)
     try:
-        obs["phi"] = {d: float(R.RSequenceSampler.compute_phi(d)) for d in {op["dims"] for s in case["segments"] for op in s["ops"]}}
+        obs["phi"] = {d: float(R.RSequenceSampler.compute_phi(d))
+                      for d in {op["dims"] for s in case["segments"] for op in s["ops"] if op["dims"] >= 1}}
     except Exception as e:  # noqa: BLE001
         obs["error"] = obs["error"] or f"compute_phi: {type(e).__name__}: {e}"
         obs["phi"] = {}
+
+
+def impl_run(case):
+    obs = drive_case(case)
+    for c, o in ((case, obs), (case.get("partner"), obs.get("partner"))):
+        if c and c["kind"] == "rrun":
+            add_phi(c, o)
     return obs
+
+
+def mk_bases(bases, btype):
+    """The list of bases as the array handed to halton(): int64 (default), int32, a non-contiguous view of a longer
+    array (the skipped entries are 1, which halton() must reject if it looked at them), or a read-only array."""
+    if btype == "int32":
+        return np.array(bases, dtype=np.int32)
+    if btype == "view":
+        a = np.ones(2 * len(bases), dtype=np.int64)
+        a[::2] = np.array(bases, dtype=np.int64)
+        return a[::2]
+    arr = np.array(bases, dtype=np.int64)
+    if btype == "readonly":
+        arr.setflags(write=False)
+    return arr
 
 
 def impl_hdirect(case):
     from black_it.samplers.halton import halton
 
     try:
-        out = halton(case["k"], np.array(case["bases"], dtype=np.int64), case["start"])
-        return {"rows": np.array(out, dtype=np.float64), "raised": None}
+        bases = mk_bases(case["bases"], case.get("btype"))
+        keep = bases.copy()
+        out = halton(typed(case["k"], case.get("ktype")), bases, typed(case["start"], case.get("stype")))
+        obs = {"rows": np.array(out, dtype=np.float64), "raised": None,
+               "bases_changed": not (bases.shape == keep.shape and (bases == keep).all())}
+        if case.get("again"):
+            # a second call (other arguments, or the same): the array returned by the first must not change, and equal
+            # arguments must give bit-identical values (no scratch buffer / memo shared between calls)
+            ag = case["again"]
+            out2 = halton(ag["k"], mk_bases(ag["bases"], case.get("btype")), ag["start"])
+            obs["again_rows"] = np.array(out2, dtype=np.float64)
+            obs["first_changed"] = not same_bits(obs["rows"], out)
+        return obs
     except ValueError as e:
         return {"rows": None, "raised": f"ValueError: {e}"}
     except Exception as e:  # noqa: BLE001
@@ -195,25 +344,40 @@ def impl_hdirect(case):
 
 
 def impl_primes(case):
+    """`calls` on one calculator; with `second`, the calls of a second calculator alternate with them (caches are per
+    object); with `mutate`, the caller overwrites every returned array in place (it owns it)."""
     from black_it.samplers.halton import _CachedPrimesCalculator
 
-    calc = _CachedPrimesCalculator()
-    out = []
-    for n in case["calls"]:
+    def one(calc, n):
         try:
-            out.append([int(p) for p in calc.get_n_primes(n)])
+            arr = calc.get_n_primes(typed(n, case.get("ntype")))
+            res = [int(p) for p in arr]
+            if case.get("mutate"):
+                with contextlib.suppress(ValueError):
+                    arr[...] = 4
+            return res
         except ValueError:
-            out.append(None)
+            return None
         except Exception as e:  # noqa: BLE001
-            out.append(f"{type(e).__name__}: {e}")
-    return {"out": out}
+            return f"{type(e).__name__}: {e}"
+
+    calc, calc2 = _CachedPrimesCalculator(), _CachedPrimesCalculator()
+    out, out2 = [], []
+    second = case.get("second") or []
+    for i, n in enumerate(case["calls"]):
+        out.append(one(calc, n))
+        if i < len(second):
+            out2.append(one(calc2, second[i]))
+    for n in second[len(case["calls"]):]:
+        out2.append(one(calc2, n))
+    return {"out": out, "out2": out2}
 
 
 def impl_phi(case):
     from black_it.samplers.r_sequence import RSequenceSampler
 
     try:
-        return {"phi": float(RSequenceSampler.compute_phi(case["d"])), "raised": None}
+        return {"phi": float(RSequenceSampler.compute_phi(typed(case["d"], case.get("dtype")))), "raised": None}
     except ValueError as e:
         return {"phi": None, "raised": str(e)}
 
@@ -222,32 +386,115 @@ def impl_seeds(case):
     from black_it.samplers.halton import HaltonSampler
     from black_it.samplers.r_sequence import RSequenceSampler
 
+    st = case.get("seed_type")
     rows = []
     for seed, seed2 in case["pairs"]:
-        h, r = HaltonSampler(3, random_state=seed), RSequenceSampler(3, random_state=seed)
-        h2, r2 = HaltonSampler(3, random_state=seed), RSequenceSampler(3, random_state=seed)
+        tseed, tseed2 = typed(seed, st), typed(seed2, st)
+        h, r = HaltonSampler(3, random_state=tseed), RSequenceSampler(3, random_state=tseed)
+        h2, r2 = HaltonSampler(3, random_state=tseed), RSequenceSampler(3, random_state=tseed)
+        hp, rp = HaltonSampler(2, random_state=seed), RSequenceSampler(2, random_state=seed)
         rec = {"seed": seed, "seed2": seed2, "h": int(h._sequence_index), "r": int(r._sequence_index),
                "off": float(r._sequence_start), "h_again": int(h2._sequence_index), "r_again": int(r2._sequence_index),
-               "off_again": float(r2._sequence_start)}
+               "off_again": float(r2._sequence_start), "h_plain": int(hp._sequence_index), "r_plain": int(rp._sequence_index),
+               "off_plain": float(rp._sequence_start)}
         h._halton(5, 2)
         r._r_sequence(5, 2)
-        h.random_state = seed2
-        r.random_state = seed2
+        h.random_state = tseed2
+        r.random_state = tseed2
         # another object with a different past, given the same seed through the setter
         hb, rb = HaltonSampler(1, random_state=seed ^ 0x5A5A), RSequenceSampler(1, random_state=seed ^ 0x5A5A)
         hb._halton(2, 3)
-        hb.random_state = seed2
-        rb.random_state = seed2
-        hf, rf = HaltonSampler(1, random_state=seed2), RSequenceSampler(1, random_state=seed2)
+        hb.random_state = tseed2
+        rb.random_state = tseed2
+        hf, rf = HaltonSampler(1, random_state=tseed2), RSequenceSampler(1, random_state=tseed2)
         rec.update(h_reseed=int(h._sequence_index), r_reseed=int(r._sequence_index), off_reseed=float(r._sequence_start),
                    h_other=int(hb._sequence_index), r_other=int(rb._sequence_index), off_other=float(rb._sequence_start),
                    h_fresh=int(hf._sequence_index), r_fresh=int(rf._sequence_index), off_fresh=float(rf._sequence_start))
         rows.append(rec)
-    return {"rows": rows}
+    unseeded = []
+    for _ in range(case.get("unseeded", 0)):
+        h, r = HaltonSampler(2, random_state=None), RSequenceSampler(2, random_state=None)
+        unseeded.append({"h": int(h._sequence_index), "r": int(r._sequence_index), "off": float(r._sequence_start)})
+    # measured, not judged: a NEGATIVE size is not a batch size; halton() rejects it, _r_sequence answers with 0 rows and
+    # moves its cursor back (reported in design.d/C13.md as an observation)
+    rs = RSequenceSampler(1, random_state=0)
+    b = int(rs._sequence_index)
+    try:
+        n_rows = int(rs._r_sequence(-2, 2).shape[0])
+    except Exception:  # noqa: BLE001
+        n_rows = None
+    return {"rows": rows, "unseeded": unseeded, "rseq_negative_size": {"rows": n_rows, "cursor_moved_by": int(rs._sequence_index) - b}}
+
+
+def _job_run(job):
+    """One unit of work of the thread scenario; returns bytes / numbers that must not depend on what other threads do."""
+    from black_it.samplers.halton import HaltonSampler, halton
+    from black_it.samplers.r_sequence import RSequenceSampler
+
+    if job["t"] == "halton":
+        return np.array(halton(job["k"], np.array(job["bases"], dtype=np.int64), job["start"]), dtype=np.float64).tobytes().hex()
+    if job["t"] == "phi":
+        return float(RSequenceSampler.compute_phi(job["d"])).hex()
+    cls, raw = (HaltonSampler, "_halton") if job["t"] == "hobj" else (RSequenceSampler, "_r_sequence")
+    smp = cls(batch_size=1, random_state=job["seed"])
+    out = [int(smp._sequence_index)]
+    for k, dims in job["ops"]:
+        out.append(np.array(getattr(smp, raw)(k, dims), dtype=np.float64).tobytes().hex())
+        out.append(int(smp._sequence_index))
+    return out
+
+
+def impl_threads(case):
+    """Every job once sequentially, then all of them on `n_threads` threads (interpreter switch interval 1 us), `rounds`
+    times: halton() and compute_phi are pure functions and every sampler object belongs to one thread only."""
+    import sys
+    import threading
+
+    jobs = case["jobs"]
+    try:
+        ref = [_job_run(j) for j in jobs]
+    except Exception as e:  # noqa: BLE001
+        return {"error": f"{type(e).__name__}: {e}"}
+    differ, errors = [], []
+    old = sys.getswitchinterval()
+    sys.setswitchinterval(1e-6)
+    try:
+        for rnd in range(case["rounds"]):
+            res = [None] * len(jobs)
+            barrier = threading.Barrier(case["n_threads"])
+
+            def work(t, res=res, barrier=barrier):
+                barrier.wait()
+                for i in range(t, len(jobs), case["n_threads"]):
+                    try:
+                        res[i] = _job_run(jobs[i])
+                    except Exception as e:  # noqa: BLE001
+                        res[i] = f"{type(e).__name__}: {e}"
+            ths = [threading.Thread(target=work, args=(t,)) for t in range(case["n_threads"])]
+            for t in ths:
+                t.start()
+            for t in ths:
+                t.join()
+            for i, (a, b2) in enumerate(zip(ref, res)):
+                if a != b2:
+                    (errors if isinstance(b2, str) and ":" in b2 and not isinstance(a, str) else differ).append([rnd, i])
+    finally:
+        sys.setswitchinterval(old)
+    return {"error": None, "differ": differ, "errors": errors, "ref_halton": [
+        np.frombuffer(bytes.fromhex(r), dtype=np.float64).reshape(j["k"], len(j["bases"])) if j["t"] == "halton" else None
+        for j, r in zip(jobs, ref)]}
 
 
 # ------------------------------------------------------------------------------------------------ direct oracles
-def oracle_calls_common(so, fails, tag):
+TOL45 = Fraction(1, 2**45)
+MARGIN = Counter()   # measured on every run (reported in the coverage): how close the clean tree comes to each tolerance
+
+
+def note_margin(key, value):
+    MARGIN[key] = max(MARGIN[key], float(value))
+
+
+def oracle_calls_common(so, fails, tag, kind):
     cur = so["s0"]
     if not (20 <= so["s0"] < 2**16):
         fails.append(f"start index range|{tag}: start index {so['s0']} outside [20, 2^16)")
@@ -256,36 +503,67 @@ def oracle_calls_common(so, fails, tag):
         if c.get("nocapture"):
             fails.append(f"no capture|{tag}: call {ci} did not reach digitize_data")
             continue
-        if c.get("accepted"):
-            fails.append(f"invalid arguments accepted|{tag}: call {ci} with a non-positive size returned a value")
+        if c.get("accepted") and (kind == "hrun" or c.get("ret_rows", 1) != 0):
+            # halton() rejects a non-positive size (C13_halton_raises_iff); the R-sequence may answer a request for 0 points
+            # with 0 points, but not with points
+            fails.append(f"invalid arguments accepted|{tag}: call {ci} with a non-positive size / dimension returned a value")
         if c["req"] is not None and rows.shape != (c["req"], c["dims"]):
             fails.append(f"shape|{tag}: call {ci} returned shape {rows.shape}, requested {(c['req'], c['dims'])}")
         if c["before"] != cur:
             fails.append(f"cursor before call|{tag}: call {ci} started at cursor {c['before']}, expected {cur}")
         if c["after"] != c["before"] + rows.shape[0]:
             fails.append(f"cursor after call|{tag}: call {ci}: cursor went {c['before']} -> {c['after']} for {rows.shape[0]} rows")
+        if c.get("changed_later"):
+            fails.append(f"returned batch changed later|{tag}: the array returned by call {ci} was changed by a later call")
+        if "ret" in c:
+            # round 4: what sample_batch RETURNS is, row by row, the captured point moved by less than one grid step (the exact
+            # snapping rule belongs to C03 / C15; the ORDER and NUMBER of the rows belong here: the k-th point is the k-th row)
+            ret = c["ret"]
+            if ret.shape == rows.shape and rows.size:
+                note_margin("returned_vs_raw_in_grid_steps(limit 1)", np.max(np.abs(ret - rows)) * c["gridn"])
+            if ret.shape != rows.shape:
+                fails.append(f"returned rows|{tag}: call {ci} returned shape {ret.shape} for {rows.shape} raw rows")
+            elif rows.size and float(np.max(np.abs(ret - rows))) > 1.0 / c["gridn"] + 2.0**-40:
+                fails.append(f"returned rows|{tag}: call {ci}: a returned row is further than one grid step from the raw "
+                             f"point of the same position (max {float(np.max(np.abs(ret - rows)))!r}, step {1.0 / c['gridn']!r})")
         cur = c["after"]
     if so.get("twin_s0") != so["s0"]:
         fails.append(f"start index not seed-determined|{tag}: start index is not a function of the seed ({so['s0']} vs twin {so.get('twin_s0')})")
+    if "ref_s0" in so and so["ref_s0"] != so["s0"]:
+        fails.append(f"reseed depends on past|{tag}: after reseeding the start index is {so['s0']}, an object with another past "
+                     f"given the same seed starts at {so['ref_s0']}")
+    if "ref_offset" in so and so["ref_offset"] != so["offset"]:
+        fails.append(f"reseed depends on past|{tag}: after reseeding the offset is {so['offset']!r}, an object with another past "
+                     f"given the same seed has {so['ref_offset']!r}")
     if so["twin"] is not None:
-        cat = np.concatenate([c["rows"] for c in so["calls"]], axis=0)
-        if not same_bits(cat, so["twin"]):
+        cat = np.concatenate([c["rows"] for c in so["calls"] if not c.get("rejected")], axis=0)
+        if so.get("inexact"):
+            # a space with a non-zero lower bound: un-mapping loses < 2^-50, so compare within 2^-45 instead of bitwise
+            d = np.abs(cat - so["twin"]) if cat.shape == so["twin"].shape else None
+            if d is not None and d.size:
+                note_margin("shifted_space_vs_one_batch_in_2^-45(limit 1)", np.max(np.minimum(d, 1 - d) if kind == "rrun" else d) * 2.0**45)
+            same = d is not None and (d.size == 0 or float(np.max(np.minimum(d, 1 - d) if kind == "rrun" else d)) <= 2.0**-45)
+        else:
+            same = same_bits(cat, so["twin"])
+        if not same:
             fails.append(f"batches differ from one batch|{tag}: batches {[int(c['rows'].shape[0]) for c in so['calls']]} differ from one batch of the total")
 
 
-def oracle_hrun(case, obs):
+def oracle_hrun_one(case, obs):
     if obs["error"]:
         return [f"exception|{obs['error']}"]
     fails = []
     primes = first_primes(40)
     for si, so in enumerate(obs["segments"]):
         tag = f"halton segment {si}"
-        oracle_calls_common(so, fails, tag)
+        oracle_calls_common(so, fails, tag, "hrun")
         for ci, c in enumerate(so["calls"]):
             for r in range(c["rows"].shape[0]):
                 n = c["before"] + 1 + r
                 for j in range(min(c["dims"], c["rows"].shape[1])):
                     x = Fraction(float(c["rows"][r, j]))
+                    note_margin("halton_object_abs_err_in_2^-40(limit 1)" + ("[shifted space]" if so.get("inexact") else ""),
+                                abs(x - mirrored(primes[j], n)) * 2**40)
                     if not (0 <= x < 1) or abs(x - mirrored(primes[j], n)) > TOL40:
                         fails.append(f"point value|{tag}: call {ci} row {r} coord {j} = {float(x)!r} is not the radical inverse "
                                      f"of {n} in base {primes[j]} ({float(mirrored(primes[j], n))!r})")
@@ -296,13 +574,13 @@ def oracle_hrun(case, obs):
     return fails
 
 
-def oracle_rrun(case, obs):
+def oracle_rrun_one(case, obs):
     if obs["error"]:
         return [f"exception|{obs['error']}"]
     fails = []
     for si, so in enumerate(obs["segments"]):
         tag = f"rseq segment {si}"
-        oracle_calls_common(so, fails, tag)
+        oracle_calls_common(so, fails, tag, "rrun")
         off = Fraction(so["offset"])
         if not (0 <= off < 1):
             fails.append(f"offset range|{tag}: offset {so['offset']} outside [0,1)")
@@ -310,6 +588,8 @@ def oracle_rrun(case, obs):
             fails.append(f"offset not seed-determined|{tag}: offset is not a function of the seed")
         prev = None
         for ci, c in enumerate(so["calls"]):
+            if c.get("rejected"):
+                continue
             d = c["dims"]
             phi = Fraction(obs["phi"][d])
             lo, hi = phi - EPS45, phi + EPS45
@@ -322,6 +602,8 @@ def oracle_rrun(case, obs):
                 n = c["before"] + r
                 row = [Fraction(float(v)) for v in c["rows"][r]]
                 for j, x in enumerate(row[:d]):
+                    note_margin("rseq_object_err_over_rtol(limit 1)" + ("[shifted space]" if so.get("inexact") else ""),
+                                circ(x, frac1(off + n * alpha[j])) / rtol(n, j + 1))
                     if not (0 <= x < 1) or circ(x, frac1(off + n * alpha[j])) > rtol(n, j + 1):
                         bad = f"point value|{tag}: call {ci} row {r} coord {j} = {float(x)!r} is not frac(offset + {n}*alpha_{j + 1})"
                         break
@@ -336,6 +618,17 @@ def oracle_rrun(case, obs):
     return fails
 
 
+def oracle_run(case, obs):
+    one = {"hrun": oracle_hrun_one, "rrun": oracle_rrun_one}
+    fails = one[case["kind"]](case, obs)
+    if case.get("partner"):
+        # the second object, whose calls alternate with the first one's, must follow its own sequence as well
+        for f in one[case["partner"]["kind"]](case["partner"], obs["partner"]):
+            clause, _, detail = f.partition("|")
+            fails.append(f"{clause}|interleaved second object: {detail}")
+    return fails
+
+
 def oracle_hdirect(case, obs):
     if obs.get("error"):
         return [f"exception|{obs['error']}"]
@@ -345,25 +638,61 @@ def oracle_hdirect(case, obs):
         return [] if obs["raised"] else ["invalid arguments accepted|halton() returned a value"]
     if obs["raised"]:
         return [f"valid arguments rejected|{obs['raised']}"]
-    rows = obs["rows"]
-    if rows.shape != (k, len(bases)):
-        return [f"shape|{rows.shape} != {(k, len(bases))}"]
-    for r in range(k):
-        for j, b in enumerate(bases):
-            x = Fraction(float(rows[r, j]))
-            if not (0 <= x < 1) or abs(x - mirrored(b, s + 1 + r)) > TOL40:
-                return [f"point value|row {r} base {b}: {float(x)!r} is not the radical inverse of {s + 1 + r}"]
-    return []
+
+    def values(rows, k, bases, s, what):
+        if rows.shape != (k, len(bases)):
+            return [f"shape|{what}{rows.shape} != {(k, len(bases))}"]
+        for r in range(k):
+            for j, b in enumerate(bases):
+                x = Fraction(float(rows[r, j]))
+                if not (0 <= x < 1) or abs(x - mirrored(b, s + 1 + r)) > TOL40:
+                    return [f"point value|{what}row {r} base {b}: {float(x)!r} is not the radical inverse of {s + 1 + r}"]
+        return []
+
+    fails = values(obs["rows"], k, bases, s, "")
+    if obs.get("bases_changed"):
+        fails.append("caller's array changed|halton() wrote into the array of bases it was given")
+    if case.get("again") and "again_rows" in obs:
+        ag = case["again"]
+        fails += values(obs["again_rows"], ag["k"], ag["bases"], ag["start"], "second call: ")
+        if obs.get("first_changed"):
+            fails.append("returned batch changed later|the array returned by halton() was changed by the next call")
+        if (ag["k"], ag["bases"], ag["start"]) == (k, bases, s) and not same_bits(obs["rows"], obs["again_rows"]):
+            fails.append("not a function of its arguments|two calls of halton() with equal arguments returned different values")
+    return fails
 
 
 def oracle_primes(case, obs):
     fails = []
-    for n, o in zip(case["calls"], obs["out"]):
-        if n < 1:
-            if o is not None:
-                fails.append(f"primes no raise|get_n_primes({n}) did not raise ValueError")
-        elif o != first_primes(n):
-            fails.append(f"primes wrong|get_n_primes({n}) after calls {case['calls']} returned {o}")
+    for calls, outs, who in ((case["calls"], obs["out"], ""), (case.get("second") or [], obs.get("out2") or [], "second calculator: ")):
+        for n, o in zip(calls, outs):
+            if n < 1:
+                if o is not None:
+                    fails.append(f"primes no raise|{who}get_n_primes({n}) did not raise ValueError")
+            elif o != first_primes(n):
+                fails.append(f"primes wrong|{who}get_n_primes({n}) after calls {calls} returned {o}")
+    return fails
+
+
+def oracle_threads(case, obs):
+    if obs.get("error"):
+        return [f"exception|{obs['error']}"]
+    fails = []
+    if obs["errors"]:
+        rnd, i = obs["errors"][0]
+        fails.append(f"exception|job {case['jobs'][i]} raised on a thread (round {rnd}) and not sequentially")
+    if obs["differ"]:
+        rnd, i = obs["differ"][0]
+        fails.append(f"thread results differ|job {case['jobs'][i]} gave another result on a thread (round {rnd}) than sequentially "
+                     f"({len(obs['differ'])} such jobs)")
+    for j, rows in zip(case["jobs"], obs["ref_halton"]):
+        if rows is None:
+            continue
+        for r in range(j["k"]):
+            for c, b in enumerate(j["bases"]):
+                if abs(Fraction(float(rows[r, c])) - mirrored(b, j["start"] + 1 + r)) > TOL40:
+                    fails.append(f"point value|sequential halton{(j['k'], j['bases'], j['start'])} row {r} base {b}")
+                    return fails
     return fails
 
 
@@ -395,6 +724,12 @@ def oracle_seeds(case, obs):
         # twice: once in the random_state setter, once more in __init__); both are functions of the seed alone
         if (r["h_reseed"], r["r_reseed"], r["off_reseed"]) != (r["h_other"], r["r_other"], r["off_other"]):
             fails.append(f"reseed depends on past|reseeding with {r['seed2']} through the setter: cursor/offset depend on the object's past")
+        if "h_plain" in r and (r["h"], r["r"], r["off"]) != (r["h_plain"], r["r_plain"], r["off_plain"]):
+            fails.append(f"start index not seed-determined|seed {r['seed']} given as {case.get('seed_type')}: start index/offset "
+                         "differ from those of the equal Python int")
+    for u in obs.get("unseeded", []):
+        if not (20 <= u["h"] < 2**16 and 20 <= u["r"] < 2**16 and 0.0 <= u["off"] < 1.0):
+            fails.append(f"start index range|unseeded sampler: start {u} outside [20, 2^16) x [0,1)")
     return fails
 
 
@@ -403,53 +738,158 @@ def rows_lit(rows):
     return clist([clist([cq(float(x)) for x in r]) for r in rows])
 
 
-def emit_hrun(case, obs):
+CHUNK = 400   # rows per Coq literal: a batch of thousands of points in ONE literal needs > 500 MB in coqc
+
+
+def chunks(n):
+    return [(a, min(n, a + CHUNK)) for a in range(0, n, CHUNK)]
+
+
+def emit_hrun_one(case, obs):
     """One literal per segment (a segment starts at a (re)seed); the prime cache of a reseeded object is warm, which the
     model covers by theorem (C13_sampler_run_spec: any reachable cache state) - the literal starts from a fresh cache and
     the answers must coincide."""
     lits = []
     for so in obs["segments"]:
         good = [c for c in so["calls"] if not c.get("rejected")]   # rejected requests are judged by the oracle (cursor unchanged)
+        big = next((i for i, c in enumerate(good) if c["rows"].shape[0] > CHUNK), None)
+        if big is not None:
+            # round 4: from the first batch of more than CHUNK rows on, the calls go to Coq in pieces, as halton() calls on the
+            # first dims primes from the cursor the call started at (check_direct; C13_batches_concat: the pieces of one batch
+            # are batches); cursors and the whole-call structure of these calls are judged by the oracle
+            primes = first_primes(40)
+            for c in good[big:]:
+                for a, b in chunks(c["rows"].shape[0]):
+                    lits.append(("hdirect", f"({cz(b - a)}, {clist([cz(x) for x in primes[:c['dims']]])}, {cz(c['before'] + a)}, "
+                                            f"(Some {rows_lit(c['rows'][a:b])}))"))
+            good = good[:big]
+            if not good:
+                continue
+            so = {**so, "twin": None}
         ops = clist([f"({cz(c['k'])}, {cz(c['dims'])})" for c in good])
         ob = clist([f"({cz(c['after'])}, {rows_lit(c['rows'])})" for c in good])
-        twin = rows_lit(so["twin"]) if so["twin"] is not None else "[]"
+        twin = rows_lit(so["twin"]) if (so["twin"] is not None and not so.get("inexact")) else "[]"
         lits.append(f"({cz(so['s0'])}, {ops}, {ob}, {twin})")
     return lits
 
 
-def emit_rrun(case, obs):
+def emit_rrun_one(case, obs):
     """One literal per run of constant dimension inside a segment (alpha depends on the dimension; the cursor and the
     offset carry over): (dims, phi, seeded start, cursor at the first call of the run, offset, sizes, observations, twin)."""
     lits = []
     for so in obs["segments"]:
         runs = []
         for c in so["calls"]:
+            if c.get("rejected"):
+                continue
             if runs and runs[-1][0]["dims"] == c["dims"]:
                 runs[-1].append(c)
             else:
                 runs.append([c])
+        pieces = []
+        for run in runs:   # round 4: a batch of more than CHUNK rows is given to Coq in pieces (C13_rseq_batches_concat)
+            if any(c["rows"].shape[0] > CHUNK for c in run):
+                for c in run:
+                    for a, b in chunks(c["rows"].shape[0]):
+                        pieces.append([{**c, "k": b - a, "before": c["before"] + a, "after": c["before"] + b, "rows": c["rows"][a:b]}])
+            else:
+                pieces.append(run)
+        split = len(pieces) != len(runs)
+        runs = pieces
         for run in runs:
             d = run[0]["dims"]
             ks = clist([cnat(c["k"]) for c in run])
             ob = clist([f"({cz(c['after'])}, {rows_lit(c['rows'])})" for c in run])
-            twin = rows_lit(so["twin"]) if (so["twin"] is not None and len(runs) == 1) else "[]"
+            twin = rows_lit(so["twin"]) if (so["twin"] is not None and len(runs) == 1 and not split and not so.get("inexact")) else "[]"
             lits.append(f"({cnat(d)}, {cq(obs['phi'][d])}, {cz(so['s0'])}, {cz(run[0]['before'])}, {cq(so['offset'])}, "
                         f"{ks}, {ob}, {twin})")
     return lits
 
 
+def obs_opt(c):
+    """Observation of one request for the total-step model: (cursor after, Some rows | None = the call raised)."""
+    if c.get("rejected"):
+        return f"({cz(c['after'])}, {'(Some [])' if c.get('accepted') else 'None'})"
+    return f"({cz(c['after'])}, (Some {rows_lit(c['rows'])}))"
+
+
+def emit_hrun_t_one(case, obs):
+    """Round 4: segments WITH rejected requests, for the total-step model (Model/SeqRej.v: hsample_t): the requests as made
+    (rejected ones included) and per request (cursor after, rows | raised)."""
+    lits = []
+    for so in obs["segments"]:
+        if not any(c.get("rejected") for c in so["calls"]):
+            continue
+        ops = clist([f"({cz(c['req_k'])}, {cz(c['req_dims'])})" if c.get("rejected") else f"({cz(c['k'])}, {cz(c['dims'])})"
+                     for c in so["calls"]])
+        lits.append(f"({cz(so['s0'])}, {ops}, {clist([obs_opt(c) for c in so['calls']])})")
+    return lits
+
+
+def emit_rrun_t_one(case, obs):
+    """Runs of one dimension with the rejected requests (dimension < 1) and the requests for 0 points that fall inside them."""
+    lits = []
+    for so in obs["segments"]:
+        runs, held = [], []
+        for c in so["calls"]:
+            if c.get("rejected"):
+                (runs[-1]["calls"] if runs else held).append(c)
+            elif runs and runs[-1]["d"] == c["dims"]:
+                runs[-1]["calls"].append(c)
+            else:
+                runs.append({"d": c["dims"], "calls": held + [c]})
+                held = []
+        for rn in runs:
+            run, d = rn["calls"], rn["d"]
+            if not any(c.get("rejected") for c in run):
+                continue
+            ops = clist([f"({cnat(max(c['req_k'], 0))}, {cz(c['req_dims'])})" if c.get("rejected") else f"({cnat(c['k'])}, {cz(d)})"
+                         for c in run])
+            lits.append(f"({cnat(d)}, {cq(obs['phi'][d])}, {cz(run[0]['before'])}, {cq(so['offset'])}, {ops}, "
+                        f"{clist([obs_opt(c) for c in run])})")
+    return lits
+
+
+def emit_of(kind):
+    """Literals of the objects of class `kind` of a case: the case's own object and / or its interleaved partner."""
+    one = {"hrun": emit_hrun_one, "rrun": emit_rrun_one, "hrun_t": emit_hrun_t_one, "rrun_t": emit_rrun_t_one}[kind]
+    kind = kind[:4]   # hrun_t -> hrun, rrun_t -> rrun
+
+    def emit(case, obs):
+        lits = []
+        if case["kind"] == kind:
+            lits += one(case, obs)
+        pc = case.get("partner")
+        if pc and pc["kind"] == kind and not obs["partner"].get("error"):
+            lits += one(pc, obs["partner"])
+        return lits
+    return emit
+
+
 def emit_hdirect(case, obs):
     o = "None" if obs["rows"] is None else f"(Some {rows_lit(obs['rows'])})"
-    return [f"({cz(case['k'])}, {clist([cz(b) for b in case['bases']])}, {cz(case['start'])}, {o})"]
+    if obs["rows"] is not None and obs["rows"].shape[0] > CHUNK and obs["rows"].shape == (case["k"], len(case["bases"])):
+        lits = [f"({cz(b - a)}, {clist([cz(x) for x in case['bases']])}, {cz(case['start'] + a)}, (Some {rows_lit(obs['rows'][a:b])}))"
+                for a, b in chunks(case["k"])]
+    else:
+        lits = [f"({cz(case['k'])}, {clist([cz(b) for b in case['bases']])}, {cz(case['start'])}, {o})"]
+    if case.get("again") and obs.get("again_rows") is not None:
+        ag = case["again"]
+        lits.append(f"({cz(ag['k'])}, {clist([cz(b) for b in ag['bases']])}, {cz(ag['start'])}, (Some {rows_lit(obs['again_rows'])}))")
+    return lits
 
 
 def emit_primes(case, obs):
-    items = []
-    for n, o in zip(case["calls"], obs["out"]):
-        if isinstance(o, str):
-            return []
-        items.append(f"({cz(n)}, {'None' if o is None else '(Some ' + clist([cz(p) for p in o]) + ')'})")
-    return [clist(items)]
+    lits = []
+    for calls, outs in ((case["calls"], obs["out"]), (case.get("second") or [], obs.get("out2") or [])):
+        items = []
+        for n, o in zip(calls, outs):
+            if isinstance(o, str):
+                return []
+            items.append(f"({cz(n)}, {'None' if o is None else '(Some ' + clist([cz(p) for p in o]) + ')'})")
+        if items:
+            lits.append(clist(items))
+    return lits
 
 
 def emit_phi(case, obs):
@@ -524,6 +964,219 @@ def gen_hdirect(rng, primes):
     return {"kind": "hdirect", "k": k, "bases": list(bases), "start": start}
 
 
+# ---- round 4 (generator sweep): representations, reuse, reassigned attributes, thresholds, sequences
+KTYPES = [None, None, None, None, "int64", "int32", "intp"]
+
+
+def find_seed(kind, rng, lo, hi, cap=40000):
+    """A seed whose freshly constructed sampler starts in [lo, hi), found by constructing real samplers (about
+    65516 / (hi - lo) tries, 25 us each); None when the cap is reached (possible only on a changed tree)."""
+    from black_it.samplers.halton import HaltonSampler
+    from black_it.samplers.r_sequence import RSequenceSampler
+
+    cls = HaltonSampler if kind == "hrun" else RSequenceSampler
+    seed = rng.below(2**31)
+    for i in range(cap):
+        try:
+            if lo <= int(cls(1, random_state=seed + i)._sequence_index) < hi:
+                return seed + i
+        except Exception:  # noqa: BLE001
+            return seed + i
+    return None
+
+
+def gen_long_case(rng, kind, mode):
+    """Sampler objects at the ends of the range of start indices (the property quantifies over [0, 2^16 + 2^12)):
+    cross = seeded within 128 of 2^16, 2-4 batches of 64..200 points (the cursor crosses 2^16);
+    top   = seeded within 256 of 2^16, a small batch, one batch that ends 1..5 points below 2^16 + 2^12, a last one to the top;
+    low   = seeded within 256 of 20, 2-4 batches of 30..120 points (crosses 27, 32, 49, 64, 81, 125, 128, 243, 256, 343)."""
+    if mode == "low":
+        seed = find_seed(kind, rng, 20, 20 + 256)
+    else:
+        seed = find_seed(kind, rng, 2**16 - (128 if mode == "cross" else 256), 2**16)
+    if seed is None:
+        return None
+    dims = rng.randint(1, 2 if mode == "top" else 3)
+
+    def op(k):
+        return {"k": k, "dims": dims, "via": "raw" if rng.below(3) else "sample_batch", "jexp": [rng.randint(-2, 3) for _ in range(3)],
+                "gridn": 64, "ktype": rng.choice(KTYPES)}
+    if mode == "top":
+        k1, k3 = rng.randint(1, 12), rng.randint(1, 5)
+        ops = [op(k1), {**op(0), "k": None, "to_top_minus": k3}, op(k3)]
+    elif mode == "cross":
+        ops = [op(rng.randint(64, 200)) for _ in range(rng.randint(2, 4))]
+    else:
+        ops = [op(rng.randint(30, 120)) for _ in range(rng.randint(2, 4))]
+    return {"kind": kind, "seed": seed, "segments": [{"reseed": None, "ops": ops}], "long": mode}
+
+
+def resolve_top(case):
+    """`to_top_minus`: the size that brings the cursor to 2^16 + 2^12 - m depends on the start index, which is the
+    implementation's: resolved by constructing the sampler once (the size is then stored in the case: replayable)."""
+    from black_it.samplers.halton import HaltonSampler
+    from black_it.samplers.r_sequence import RSequenceSampler
+
+    cls = HaltonSampler if case["kind"] == "hrun" else RSequenceSampler
+    for seg in case["segments"]:
+        for i, o in enumerate(seg["ops"]):
+            if o.get("k") is None:
+                try:
+                    s0 = int(cls(1, random_state=case["seed"])._sequence_index)
+                except Exception:  # noqa: BLE001
+                    s0 = 2**16 - 1
+                used = sum(x["k"] for x in seg["ops"][:i])
+                o["k"] = max(1, min(TOP - o.pop("to_top_minus") - s0 - used, 2**12 + 300))
+    return case
+
+
+def gen_v4_case(rng, kind, max_dims, max_k, partner=True):
+    """The round-1..3 generator plus: seeds given as numpy scalars / beyond 2^32, re-seeding with the SAME seed, sizes and
+    dimensions given as numpy integers, rejected requests for both samplers (size and dimension), search spaces with a
+    non-zero lower bound, a fine grid (returned rows against raw rows), max_deduplication_passes reassigned, a history that
+    already holds every grid point, and a second object whose calls alternate with the first one's."""
+    st = rng.choice([None, None, None, "int64", "uint32", "big"])
+    seed = rng.below(2**31) if st != "big" else rng.choice([2**32, 2**63, 2**64]) + rng.below(2**20)
+    segs = []
+    for si in range(rng.choice([1, 1, 2, 2, 3])):
+        const_dims = rng.below(10) < 6
+        d0 = rng.randint(1, max_dims)
+        ops = []
+        for _ in range(rng.randint(1, 4)):
+            v = rng.below(10)
+            dims = d0 if const_dims else rng.randint(1, max_dims)
+            if rng.below(4) == 0:
+                dims = rng.randint(1, 2)   # small spaces: fine grids, histories that hold every grid point
+            o = {"k": rng.randint(1, max_k), "dims": dims, "jexp": [rng.randint(-2, 3) for _ in range(3)],
+                 "ktype": rng.choice(KTYPES), "gridn": 64}
+            if v < 3:
+                o["via"] = "sample_batch"
+                if rng.below(3) == 0:
+                    o["shift"] = rng.choice([-3, -2, -1, 1, 2, 3])
+                if dims <= 3 and rng.below(2) == 0:
+                    o["gridn"] = 2**14
+            elif v < 5:
+                o["via"] = "raw"
+            elif v < 8:
+                o["via"] = "sample"
+                o["mdp"] = rng.choice([None, 0, 1, 2, 7])
+                if rng.below(2):
+                    o["gridn"] = 4
+                    if dims <= 2 and rng.below(2):
+                        o["existing"] = "full"
+                        o["k"] = rng.randint(1, 4)
+            else:
+                o["via"] = "raw_bad"
+                o["k"] = 0
+                if rng.below(2):
+                    o["bad_dims"] = rng.choice([0, -1, -2])
+                    o["bad_k"] = rng.randint(1, 4)
+                else:
+                    o["bad_k"] = rng.choice([0, -1, -4]) if kind == "hrun" else 0
+            ops.append(o)
+        if ops[-1]["via"] == "raw_bad":   # a good request after the rejected one: it starts where the last good one ended
+            ops.append({"k": rng.randint(1, max_k), "dims": d0, "via": "raw", "jexp": [0, 0, 0], "gridn": 64, "ktype": None})
+        seg = {"reseed": None, "ops": ops}
+        if si > 0:
+            if rng.below(5) < 2:
+                seg["reseed_same"] = True
+            else:
+                seg["reseed"] = rng.below(2**31)
+                seg["reseed_type"] = rng.choice([None, None, "int64", "uint32"])
+        segs.append(seg)
+    case = {"kind": kind, "seed": seed, "segments": segs}
+    if st in ("int64", "uint32"):
+        case["seed_type"] = st
+    if partner and rng.below(5) < 2:
+        case["partner"] = gen_v4_case(rng, rng.choice(["hrun", "rrun"]), min(max_dims, 8), min(max_k, 6), partner=False)
+    return case
+
+
+def valid_hdirect(c):
+    return c["k"] > 0 and all(b > 1 for b in c["bases"]) and c["start"] >= 0
+
+
+def gen_hdirect_v4(rng, primes):
+    """Direct calls with the arguments in other representations (int32 / non-contiguous / read-only array of bases, numpy
+    integers for the size and the start), a larger batch, and a second call after the first (aliasing, memoisation)."""
+    c = gen_hdirect(rng, primes)
+    c["btype"] = rng.choice([None, "int32", "view", "readonly"])
+    c["ktype"] = rng.choice(KTYPES)
+    c["stype"] = rng.choice(KTYPES)
+    if rng.below(8) == 0 and valid_hdirect(c):
+        c["bases"] = c["bases"][:3] or [2]
+        c["k"] = rng.randint(200, 1500)
+        c["start"] = rng.randint(0, TOP - c["k"])
+    if rng.below(3) == 0:
+        if rng.below(2):
+            c["again"] = {"k": c["k"], "bases": list(c["bases"]), "start": c["start"]}
+        else:
+            for _ in range(20):
+                a = gen_hdirect(rng, primes)
+                if valid_hdirect(a):
+                    c["again"] = {"k": a["k"], "bases": a["bases"], "start": a["start"]}
+                    if rng.below(2) and c["k"] > 0:   # same shape, other indices
+                        c["again"] = {"k": c["k"], "bases": list(c["bases"]), "start": max(0, min(a["start"], TOP - c["k"]))}
+                    break
+    return c
+
+
+def gen_threads(rng, primes, n_jobs):
+    jobs = []
+    for _ in range(n_jobs):
+        t = rng.below(10)
+        if t < 4:
+            k = rng.randint(2, 6)
+            jobs.append({"t": "halton", "k": k, "bases": primes[: rng.randint(1, 12)] if rng.below(2) else
+                         [rng.choice(primes) for _ in range(rng.randint(1, 6))], "start": rng.randint(0, TOP - k)})
+        elif t < 6:
+            jobs.append({"t": "phi", "d": rng.randint(1, 40)})
+        else:
+            jobs.append({"t": "hobj" if t < 8 else "robj", "seed": rng.below(2**31),
+                         "ops": [[rng.randint(1, 5), rng.randint(1, 6)] for _ in range(rng.randint(2, 3))]})
+    return {"kind": "threads", "jobs": jobs, "n_threads": 6, "rounds": 3}
+
+
+def generate_v4(chk):
+    rng, quick = chk.rng.fork(), chk.tier == "quick"
+    primes = first_primes(40)
+    cases = []
+    n_v4, n_long, n_hd, n_pr = (24, 2, 80, 24) if quick else (80, 6, 600, 120)
+    max_dims, max_k = (12, 12) if quick else (40, 20)
+    for kind in ("hrun", "rrun"):
+        for _ in range(n_v4):
+            cases.append(gen_v4_case(rng, kind, max_dims, max_k))
+        for mode in ("cross", "low", "top"):
+            for _ in range(n_long if mode != "top" else 1 + (not quick)):
+                c = gen_long_case(rng, kind, mode)
+                if c is not None:
+                    cases.append(resolve_top(c))
+        if quick:   # the quick tier kept sampler objects to 12 dimensions: a few up to 40 (the whole prime table)
+            for _ in range(3):
+                cases.append(gen_sampler_case(rng, kind, 40, 3))
+    for _ in range(n_hd):
+        cases.append(gen_hdirect_v4(rng, primes))
+    for _ in range(n_pr):
+        calls = [rng.randint(1, 40) if rng.below(12) else rng.randint(-2, 0) for _ in range(rng.randint(2, 6))]
+        c = {"kind": "primes", "calls": calls, "ntype": rng.choice([None, "int64", "int32"]), "mutate": bool(rng.below(2))}
+        if rng.below(2):
+            c["second"] = [rng.randint(1, 40) for _ in range(rng.randint(1, 6))]
+        cases.append(c)
+    for _ in range(8 if quick else 40):
+        cases.append({"kind": "phi", "d": rng.randint(1, 40), "dtype": rng.choice(["int64", "int32", "intp"])})
+    n_s = 60 if quick else 600
+    same = [[x, x] for x in (rng.below(2**32) for _ in range(n_s // 2))]
+    cases.append({"kind": "seeds", "pairs": same + [[rng.below(2**32), rng.below(2**32)] for _ in range(n_s // 2)], "unseeded": 5})
+    cases.append({"kind": "seeds", "seed_type": "int64",
+                  "pairs": [[rng.below(2**62), rng.below(2**62)] for _ in range(n_s // 2)] + [[x, x] for x in (rng.below(2**62) for _ in range(n_s // 4))]})
+    cases.append({"kind": "seeds", "seed_type": "uint32", "pairs": [[rng.below(2**32), rng.below(2**32)] for _ in range(n_s // 2)]})
+    cases.append({"kind": "seeds", "pairs": [[b + rng.below(2**20), b2 + rng.below(2**20)] for b in (2**32, 2**63, 2**64, 2**100)
+                                             for b2 in (2**32, 2**64)]})
+    for _ in range(1 if quick else 4):
+        cases.append(gen_threads(rng, primes, 24 if quick else 60))
+    return cases
+
+
 def generate(chk):
     rng, quick = chk.rng, chk.tier == "quick"
     primes = first_primes(40)
@@ -555,13 +1208,15 @@ def generate(chk):
     for d in range(0, 41 if quick else 61):
         cases.append({"kind": "phi", "d": d})
     cases.append({"kind": "seeds", "pairs": [[rng.below(2**32), rng.below(2**32)] for _ in range(n_s)]})
-    return cases
+    return cases + generate_v4(chk)
 
 
-IMPL = {"hrun": impl_hrun, "rrun": impl_rrun, "hdirect": impl_hdirect, "primes": impl_primes, "phi": impl_phi, "seeds": impl_seeds}
-ORACLE = {"hrun": oracle_hrun, "rrun": oracle_rrun, "hdirect": oracle_hdirect, "primes": oracle_primes, "phi": oracle_phi,
-          "seeds": oracle_seeds}
-EMIT = {"hrun": (emit_hrun, "check_case", T_HRUN), "rrun": (emit_rrun, "check_rseq", T_RRUN),
+IMPL = {"hrun": impl_run, "rrun": impl_run, "hdirect": impl_hdirect, "primes": impl_primes, "phi": impl_phi, "seeds": impl_seeds,
+        "threads": impl_threads}
+ORACLE = {"hrun": oracle_run, "rrun": oracle_run, "hdirect": oracle_hdirect, "primes": oracle_primes, "phi": oracle_phi,
+          "seeds": oracle_seeds, "threads": oracle_threads}
+EMIT = {"hrun": (emit_of("hrun"), "check_case", T_HRUN), "rrun": (emit_of("rrun"), "check_rseq", T_RRUN),
+        "hrun_t": (emit_of("hrun_t"), "check_case_t", T_HRUN_T), "rrun_t": (emit_of("rrun_t"), "check_rseq_t", T_RRUN_T),
         "hdirect": (emit_hdirect, "check_direct", T_HDIRECT), "primes": (emit_primes, "check_primes", T_PRIMES),
         "phi": (emit_phi, "check_phi", T_PHI)}
 
@@ -595,9 +1250,13 @@ def _patch_gate_parser():
     common.parse_assumptions = parse
 
 
+_RETRY_LOCK = threading.Lock()
+
+
 def mismatches_with_retry(chk, name, fn, typ, lits, shard):
-    """chk.coq_mismatches, then ONE sequential retry (long timeout) of any shard that hit the per-file timeout: on a
-    loaded machine a timeout says nothing about the model or the implementation."""
+    """chk.coq_mismatches, then up to three sequential re-runs (long timeout, after 5 / 30 / 90 s) of any shard that hit the
+    per-file timeout or was killed (rc 137 / -9: the kernel's out-of-memory killer on a shared machine): neither says anything
+    about the model or the implementation.  A shard that still fails is reported."""
     import re
 
     import common
@@ -605,17 +1264,22 @@ def mismatches_with_retry(chk, name, fn, typ, lits, shard):
     bad, errs = chk.coq_mismatches(name, IMPORTS, fn, typ, lits, shard)
     still = []
     for e in errs:
-        m = re.match(rf"cases_{name}_(\d+)\.v: rc=124", e)
+        m = re.match(rf"cases_{name}_(\d+)\.v: rc=(?:124|137|-9)\b", e)
         if not m:
             still.append(e)
             continue
         idx = int(m.group(1))
-        rc, out, err, _ = common.coqc_file(chk.case_dir / f"cases_{name}_{idx}.v", timeout=3000)
+        with _RETRY_LOCK:   # one re-run at a time, whatever the family
+            for pause in (5, 30, 90):
+                time.sleep(pause)   # a machine that has just run out of memory needs a moment
+                rc, out, err, _ = common.coqc_file(chk.case_dir / f"cases_{name}_{idx}.v", timeout=3000)
+                if rc not in (124, 137, -9):
+                    break
         mm = re.search(r"@@BAD\s*(.*)", out, flags=re.S)
         if rc != 0 or not mm:
             still.append(e + f" (retry: rc={rc} {(out + err)[-300:]})")
             continue
-        chk.notes.append(f"shard cases_{name}_{idx}.v timed out under load and was re-run alone")
+        chk.notes.append(f"shard cases_{name}_{idx}.v timed out / was killed under load and was re-run alone")
         bad += [idx * shard + int(x) for x in re.findall(r"\d+", mm.group(1))]
     return sorted(bad), still
 
@@ -638,26 +1302,44 @@ def run(chk, replay=None):
     bad_cases, errors = {}, []
     n_lits = Counter()
     jobs = []
+    fam = {kind: ([], []) for kind in EMIT}
     for kind, (emit, fn, typ) in EMIT.items():
-        lits, owner = [], []
         for i, (c, o) in enumerate(zip(cases, observations)):
-            if c["kind"] != kind or o.get("error"):
+            pk = c["partner"]["kind"] if c.get("partner") else None
+            if {"hrun_t": "hrun", "rrun_t": "rrun"}.get(kind, kind) not in (c["kind"], pk) or o.get("error"):
                 continue
             for lit in emit(c, o):
-                lits.append(lit)
-                owner.append(i)
+                dest, lit = lit if isinstance(lit, tuple) else (kind, lit)   # pieces of a big Halton batch go to check_direct
+                fam[dest][0].append(lit)
+                fam[dest][1].append(i)
+    for kind, (emit, fn, typ) in EMIT.items():
+        lits, owner = fam[kind]
         n_lits[kind] = len(lits)
         if lits:
             nfiles = 16 if chk.tier == "quick" else 32
-            shard = max(1, min(400, -(-len(lits) // nfiles))) if kind in ("hrun", "rrun", "hdirect") else 400
+            shard = max(1, min(400, -(-len(lits) // nfiles))) if kind in ("hrun", "rrun", "hdirect", "hrun_t", "rrun_t") else 400
+            if kind in ("hrun", "rrun", "hdirect", "hrun_t", "rrun_t"):
+                # literals differ in size by three orders of magnitude (round 4: batches of thousands of points): deal them
+                # out by decreasing size so that no file gets all the big ones
+                nb = -(-len(lits) // shard)
+                by_size = sorted(range(len(lits)), key=lambda j: -len(lits[j]))
+                order = [j for b in range(nb) for j in by_size[b::nb]]
+                lits, owner = [lits[j] for j in order], [owner[j] for j in order]
             jobs.append((kind, fn, typ, lits, owner, shard))
-    with ThreadPoolExecutor(max_workers=len(jobs) or 1) as ex:
+    if not replay:
+        # fail closed: a family of cases that reaches Coq with no literal at all means the harness lost them, not that they passed
+        for kind in ("hrun", "rrun", "hdirect", "primes", "phi"):
+            if n_lits[kind] == 0 and any(c["kind"] == kind and not o.get("error") for c, o in zip(cases, observations)):
+                errors.append(f"no literal of family {kind} was produced for Coq although cases of that kind ran")
+    # at most two families at a time (each runs up to one coqc per core, 100-500 MB each): seven families at once made the
+    # check itself a cause of the memory shortage it then suffered from
+    with ThreadPoolExecutor(max_workers=2) as ex:
         futs = [(j, ex.submit(mismatches_with_retry, chk, f"C13_{j[0]}", j[1], j[2], j[3], j[5])) for j in jobs]
         for (kind, fn, typ, lits, owner, shard), fut in futs:
             bad, errs = fut.result()
             errors += errs
             for b in bad:
-                bad_cases.setdefault(owner[b], lits[b])
+                bad_cases.setdefault(owner[b], (lits[b], fn))
 
     # direct oracle + verdicts
     dist = Counter()
@@ -676,6 +1358,23 @@ def run(chk, replay=None):
                 for op in seg["ops"]:
                     dist[f"{kind}.via={op['via']}"] += 1
                     dist[f"{kind}.dims<={-(-op['dims'] // 10) * 10}"] += 1
+                    for f in ("ktype", "shift", "mdp", "existing", "bad_dims"):
+                        if op.get(f) is not None and op.get(f) != 0:
+                            dist[f"{kind}.op_with_{f}"] += 1
+                    if op.get("gridn", 64) > 64:
+                        dist[f"{kind}.fine_grid"] += 1
+                dist[f"{kind}.reseed_same_seed"] += bool(seg.get("reseed_same"))
+                dist[f"{kind}.reseed_other_seed"] += seg.get("reseed") is not None
+            dist[f"{kind}.returned_rows_compared"] += sum(1 for cl in calls if "ret" in cl)
+            dist[f"{kind}.cursor_crosses_2^16"] += any(cl["before"] < 2**16 <= cl["after"] for cl in calls)
+            dist[f"{kind}.cursor_reaches_top"] += any(cl["after"] == TOP for cl in calls)
+            dist[f"{kind}.start_below_276"] += o["segments"][0]["s0"] < 276
+            dist[f"{kind}.batch_of_100+"] += any(cl["rows"].shape[0] >= 100 for cl in calls)
+            dist[f"{kind}.seed_as_numpy_or_big"] += bool(c.get("seed_type")) or (c["seed"] or 0) >= 2**32
+            if c.get("partner"):
+                dist[f"{kind}.interleaved_with={c['partner']['kind']}"] += 1
+                if not o["partner"]["error"]:
+                    n_points += sum(int(cl["rows"].shape[0]) for so in o["partner"]["segments"] for cl in so["calls"])
             dist[f"{kind}.extra_dedup_calls"] += sum(1 for cl in calls if cl["req"] is None)
             dist[f"{kind}.twin_compared"] += sum(1 for so in o["segments"] if so["twin"] is not None)
             if len(calls) >= 2 and max(cl["dims"] for cl in calls) >= 2:
@@ -689,13 +1388,35 @@ def run(chk, replay=None):
                     nontrivial.add(key)
                 if c["start"] == 0 or c["start"] + c["k"] == TOP:
                     dist["hdirect.range_end"] += 1
+                for f in ("btype", "ktype", "stype"):
+                    if c.get(f):
+                        dist[f"hdirect.{f}={c[f]}"] += 1
+                if c.get("again"):
+                    dist["hdirect.second_call_" + ("same" if c["again"]["start"] == c["start"] and c["again"]["k"] == c["k"]
+                                                   and c["again"]["bases"] == c["bases"] else "other")] += 1
+                    n_points += c["again"]["k"]
+                if c["k"] >= 100:
+                    dist["hdirect.batch_of_100+"] += 1
         elif kind == "primes":
             if len(c["calls"]) >= 2 or c["calls"][0] >= 10:
                 nontrivial.add(key)
+            dist["primes.numpy_int_argument"] += bool(c.get("ntype"))
+            dist["primes.caller_overwrites_result"] += bool(c.get("mutate"))
+            dist["primes.two_calculators_interleaved"] += bool(c.get("second"))
+        elif kind == "threads":
+            nontrivial.add(key)
+            dist["threads.jobs"] += len(c["jobs"]) * c["rounds"]
         elif kind == "phi" and c["d"] >= 1:
             nontrivial.add(key)
         elif kind == "seeds":
             dist["seeds.pairs"] += len(c["pairs"])
+            dist["seeds.same_seed_reseed"] += sum(1 for a, b2 in c["pairs"] if a == b2)
+            dist["seeds.numpy_typed"] += len(c["pairs"]) if c.get("seed_type") else 0
+            dist["seeds.seed>=2^32"] += sum(1 for a, _ in c["pairs"] if a >= 2**32)
+            dist["seeds.unseeded"] += len(o.get("unseeded", []))
+            neg = o.get("rseq_negative_size") or {}
+            if neg.get("cursor_moved_by"):
+                dist["observation.rseq_negative_size_moves_cursor_back(not judged)"] += 1
             dist["seeds.fresh_start_differs_from_reseeded_start"] += sum(
                 1 for r in o["rows"] if (r["h_reseed"], r["r_reseed"]) != (r["h_fresh"], r["r_fresh"]))
             nontrivial.add(key)
@@ -704,10 +1425,10 @@ def run(chk, replay=None):
             chk.violation({"kind": "oracle", "sub": kind, "clause": clause},
                           {"failed": f"oracle:{clause}: {detail}", "all": fails[:20], "case": c, "observed": summarise(o)})
         elif i in bad_cases:
-            chk.violation({"kind": "correspondence", "name": EMIT[kind][1]},
-                          {"failed": f"correspondence:{EMIT[kind][1]} (model and implementation disagree; the property "
+            chk.violation({"kind": "correspondence", "name": bad_cases[i][1]},
+                          {"failed": f"correspondence:{bad_cases[i][1]} (model and implementation disagree; the property "
                                      "oracle found no failing input)", "case": c, "observed": summarise(o),
-                           "coq_case": bad_cases[i][:20000]}, no_input=True)
+                           "coq_case": bad_cases[i][0][:20000]}, no_input=True)
     for e in errors:
         chk.violation({"kind": "correspondence", "name": "coqc"}, {"failed": "correspondence:coqc", "detail": e}, no_input=True)
 
@@ -733,7 +1454,12 @@ def run(chk, replay=None):
                 "large bases, empty base list, start 0, top of range 2^16+2^12, digit-carry starts b^e-1, invalid arguments), "
                 "get_n_primes histories (every n<=40 alone + random histories incl. n<=0), compute_phi(d), seed pairs; "
                 "non-trivial = sampler run with >= 2 calls and some dims >= 2 | valid direct call with >= 2 bases | prime history "
-                "of >= 2 calls or n >= 10 | phi with d >= 1 | the seed sweep; distinct = distinct case descriptions",
+                "of >= 2 calls or n >= 10 | phi with d >= 1 | the seed sweep | the thread scenario; distinct = distinct case "
+                "descriptions.  Round 4 adds (see distribution): sizes/dims/starts/seeds as numpy integers, int32 / strided / "
+                "read-only bases, second calls (aliasing), interleaved second objects, same-seed reseeds, objects seeded within "
+                "128/256 of 2^16 and of 20 with batches across 2^16 and up to 2^16+2^12, rejected requests (size and dimension) "
+                "on both samplers, shifted / fine-grid spaces with returned-vs-raw rows, reassigned max_deduplication_passes, "
+                "histories holding every grid point, overwritten prime arrays, two calculators, threads",
         "samples": [x for x in (sample_of("hrun"), sample_of("rrun"), sample_of("hdirect")) if x],
         "traces_validated_against_impl": len(cases) - len(bad_cases),
         "model_impl_disagreements": len(bad_cases),
@@ -741,7 +1467,10 @@ def run(chk, replay=None):
         "tolerances": "Halton coordinates 2^-40 (float error <= 17 roundings ~ 2^-49; smallest effect of a wrong digit/index "
                       ">= 2^-25); R-sequence coordinate k of row n: (n(k+4)+64) 2^-49 on the circle (alpha_k carries <= (k+2) "
                       "2^-53 relative error, multiplied by n < 2^17); phi: sign change within +-2^-45; cursors, primes, batch "
-                      "concatenation: exact / bitwise",
+                      "concatenation: exact / bitwise; round 4: spaces with lower bound m*w (|m| <= 3): same 2^-40 (un-mapping "
+                      "loses < 2^-50), their batches against one batch 2^-45 instead of bitwise; returned rows against raw rows: "
+                      "one grid step (measured 0.5); measured_margins gives the worst case of this run for each",
+        "measured_margins": {k: float(f"{v:.4g}") for k, v in sorted(MARGIN.items())},
         "exhaustive": False,
     }
     return chk.finish(
